@@ -90,6 +90,23 @@ CLAIMED['C01'] = (
     TRUST + '; A4: the contracts (bootstrapping correct with margin >= 1/16, output noise <= 1/32 resp. 1/64, key switch within 1/64) are statistical facts of C02/C04/C08 at the real parameter sets, assumed not decided; combination of the two queries uses C14 phase linearity',
     'bounded symbolic execution of the gate code with contract stubs (clang IR -> C -> CBMC) + SAT/SMT portfolio', 'DESIGN.md section 4, C01')
 
+IO_NOTE = TRUST + '; A2; A3: the text layer of tfhe_generic_streams.cpp is replaced by atomic text records under CBMC (number format read from the repo source on every run), while validation and counterexample replay run natively against the REAL text layer and stream transports'
+CLAIMED['C05'] = (
+    'The real tfhe_io.cpp import/export code for all 14 object kinds of tiny dimensions with every coefficient symbolic, three sets of noise levels '
+    '(incl. the default sets\' 2^-15, 2^-25, 7.18e-9, 2.44e-5) and one scalar query over ALL doubles of [1e-12,0.5] through the number formatter: '
+    'field-for-field equality after import, stream fully and cleanly consumed, byte-identical re-export, four objects back to back; both transports.',
+    IO_NOTE, 'bounded symbolic execution over an I/O channel model (clang IR -> C -> CBMC) + SAT/SMT portfolio', 'DESIGN.md section 4, C05')
+CLAIMED['C17'] = (
+    'For one fully symbolic key set: the cloud export is a strict prefix of the secret export, has exactly 5 text sections and the byte count '
+    'given by the parameter formula (secret export = that + the two key sections), no fwrite of the cloud export reads from the LWE secret key '
+    'storage, replacing both secret keys by other arbitrary values leaves the cloud bytes identical, and the cloud stream imports cleanly on its own.',
+    IO_NOTE, 'bounded symbolic execution over an I/O channel model (clang IR -> C -> CBMC) + SAT/SMT portfolio', 'DESIGN.md section 4, C17')
+CLAIMED['C18'] = (
+    'For 13 importers: the complete export of a tiny object is cut inside every region in turn (text section = region, cut = section missing; binary '
+    'run = region, cut at a symbolic byte offset); every normal return leaves the C++ stream failed and the C transport never returns normally; '
+    '8 type-confusion pairs never return; CBMC bounds checks on throughout.',
+    IO_NOTE + '; a virtual call on the null text-properties object terminates the process', 'bounded symbolic execution over an I/O channel model (clang IR -> C -> CBMC) + SAT/SMT portfolio', 'DESIGN.md section 4, C18')
+
 NOT_APPLICABLE = {
     'C02': 'statistical claim (mean/stdev/tail of the phase error of the real FFT pipeline at N=1024): a solver decides for-all/exists and the for-all version is false; its deterministic mechanisms are decided under C12, C08, C07, C19, C01',
     'C10': 'double-precision rounding error of 2048-point FFTs, three of five back-ends being hand-written AVX/FMA assembly or FFTW: bit-precise FP is out of solver reach beyond N~2 and a sound real-arithmetic over-approximation exceeds the stated 2 units',
